@@ -1847,10 +1847,13 @@ func (a *align) Pssm(log bool, pseudocount float64, normalization int) (pssm map
 	/* Initialize entropy if NORM_LOGO*/
 	entropy = make([]float64, a.Length())
 	/* Applying normalization factors */
-	for k, v := range pssm {
+	/* (characters are taken in alphabet order, so that the rounded entropy sum
+	   does not depend on a map iteration order; a frequency of 0 contributes 0) */
+	for _, k := range alphabet {
+		v := pssm[k]
 		for i := range v {
 			v[i] = v[i] * normfactors[k]
-			if normalization == PSSM_NORM_LOGO {
+			if normalization == PSSM_NORM_LOGO && v[i] > 0 {
 				entropy[i] += -v[i] * math.Log(v[i]) / math.Log(2)
 			}
 		}
